@@ -446,3 +446,28 @@ func TestC20Regress(t *testing.T) {
 		runC20(t, c)
 	}
 }
+
+// TestC20EnumScale: thousands of sessions left waiting on one connection, which then ends (EOF, or the
+// shutdown with the sessions still open), next to a second connection with a little ordinary traffic.
+func TestC20EnumScale(t *testing.T) {
+	n := scaleN()
+	for _, end := range []string{"eof", "read-error", ""} {
+		var big c20Conn
+		for i := 0; i < n; i++ {
+			big.Ops = append(big.Ops, c20Op{Kind: "start", Session: uint32(1000 + i)})
+		}
+		for _, i := range []int{0, 255, 256, 1023, 1024, 4095, 4096, n - 1} {
+			if i < n {
+				big.Ops = append(big.Ops, c20Op{Kind: "continue", Session: uint32(1000 + i)})
+			}
+		}
+		big.Ops = append(big.Ops, c20Op{Kind: "complete", Session: 7})
+		if end != "" {
+			big.Ops = append(big.Ops, c20Op{Kind: end})
+		}
+		c := c20Case{Conns: []c20Conn{big, {Ops: []c20Op{{Kind: "start", Session: 1}, {Kind: "complete", Session: 2}, {Kind: "continue", Session: 1}}}}}
+		a, r := runC20(t, c)
+		classifyC20(c, a, r)
+		ev.Class(fmt.Sprintf("scale:%d-sessions-waiting-on-one-connection", n))
+	}
+}
